@@ -104,7 +104,8 @@ func (tr *Tracer) step(st *state) (*state, []*state) {
 			f.regs[in] = &Sym{Kind: KUn, Op: in.Op, Args: []*Sym{x}, Typ: in.Type()}
 		}
 	case *ssa.ChangeType:
-		f.regs[in] = &Sym{Kind: KConv, Name: "changetype", Args: []*Sym{tr.val(st, in.X)}, Typ: in.Type()}
+		// value preserving: only the static type changes (also generic instantiation wrappers)
+		f.regs[in] = tr.val(st, in.X)
 	case *ssa.ChangeInterface:
 		f.regs[in] = &Sym{Kind: KConv, Name: "changeiface", Args: []*Sym{tr.val(st, in.X)}, Typ: in.Type()}
 	case *ssa.MakeInterface:
@@ -372,9 +373,21 @@ func (tr *Tracer) freshPhis(st *state, f *frame, h, from *ssa.BasicBlock) {
 			break
 		}
 		s := st.fresh("loop", ph.Type(), ph)
-		// hint: Args[0] = value on first entry (what the phi held in iteration 1), Args[1] = back-edge value
+		// hint for the range evaluator: Args[0] = value on first entry, Args[1] = constant step of an
+		// induction variable (back-edge value is phi +/- const), nil otherwise
 		if old, ok := f.regs[ph]; ok && backIdx >= 0 {
-			s.Args = []*Sym{old, tr.val(st, ph.Edges[backIdx])}
+			var step *Sym
+			if bo, ok := ph.Edges[backIdx].(*ssa.BinOp); ok && (bo.Op == token.ADD || bo.Op == token.SUB) && bo.X == ssa.Value(ph) {
+				if cst, ok := bo.Y.(*ssa.Const); ok && cst.Value != nil {
+					if v, ok := constant.Int64Val(cst.Value); ok {
+						if bo.Op == token.SUB {
+							v = -v
+						}
+						step = symInt(v, ph.Type())
+					}
+				}
+			}
+			s.Args = []*Sym{old, step}
 		}
 		news = append(news, pv{ph, s})
 		pc++
